@@ -13,7 +13,7 @@ import struct
 import sys
 
 AUTHORED_RECTS = []   # filled by the scenario: rectangles of the authored locations, in authoring order
-CARRIED_SWITCHES = (0, 1, 200, 3, 4)   # 3 and 4 carry custom names in the scx fixture
+CARRIED_SWITCHES = (0, 1, 200, 3)   # 3 carries a custom name in the scx fixture; 4 ("Switch 5") is named and stays unreferenced
 
 sys.path.insert(0, os.path.dirname(os.path.abspath(__file__)))
 import refchk  # noqa: E402
